@@ -288,6 +288,45 @@ func (g *c15gen) spread(chunks []string) []c15File {
 	return fs
 }
 
+// tieDiamond: a training tree in which one file is reached over two include paths, and a target whose placeholder is
+// decided by that: accounts a < b (bytewise) are trained with the same description, amount and counter-account, a
+// once, b in the shared file.  The loader visits a file once per include (C05_layout), so b is trained twice and wins;
+// if the shared file were trained once, the scores would be equal and a would win (seeded change C06c-load-once-set;
+// a random tree almost never decides a choice this way).
+func (g *c15gen) tieDiamond() ([]c15File, string) {
+	r := g.r
+	accs := append([]string(nil), c15Accounts...)
+	r.shuffle(len(accs), func(i, j int) { accs[i], accs[j] = accs[j], accs[i] })
+	a, b, c := accs[0], accs[1], accs[2]
+	if a > b {
+		a, b = b, a
+	}
+	desc, qty, com, date := pick(r, c15Words), pick(r, []string{"1", "10", "50", "1200.00"}), pick(r, c15Commodities), g.date()
+	side := r.intn(2)
+	trx := func(x string) string {
+		if side == 0 {
+			return fmt.Sprintf("%s \"%s\"\n%s %s %s %s\n\n", date, desc, x, c, qty, com)
+		}
+		return fmt.Sprintf("%s \"%s\"\n%s %s %s %s\n\n", date, desc, c, x, qty, com)
+	}
+	var fs []c15File
+	switch r.intn(3) {
+	case 0: // the root includes the shared file twice
+		fs = []c15File{{"root.knut", "include \"sub/s.knut\"\n\n" + trx(a) + "include \"./sub/../sub/s.knut\"\n"}, {"sub/s.knut", trx(b)}}
+	case 1: // over two intermediate files
+		fs = []c15File{{"root.knut", "include \"x.knut\"\ninclude \"other/y.knut\"\n\n" + trx(a)},
+			{"x.knut", "include \"sub/s.knut\"\n"}, {"other/y.knut", g.filler() + "include \"../sub/s.knut\"\n"}, {"sub/s.knut", trx(b)}}
+	default: // directly and over an intermediate file
+		fs = []c15File{{"root.knut", trx(a) + "include \"sub/x.knut\"\ninclude \"sub/s.knut\"\n"},
+			{"sub/x.knut", "include \"s.knut\"\n"}, {"sub/s.knut", g.filler() + trx(b)}}
+	}
+	target := trx(g.ph)
+	if r.chance(50) {
+		target = g.filler() + target + trx(g.ph)
+	}
+	return fs, target
+}
+
 func (g *c15gen) target() string {
 	if g.r.chance(4) {
 		return g.date() + " open\n" // does not parse
@@ -344,6 +383,10 @@ func genC15(out *caseWriter, seed uint64, n int, args []string) error {
 		train := hex.EncodeToString([]byte(strings.Join(chunks, "")))
 		if r.chance(6) {
 			train = hex.EncodeToString([]byte(target)) // training file and target file may be the same
+		} else if r.chance(8) {
+			var fs []c15File
+			fs, target = g.tieDiamond()
+			train = c15EncodeTree(fs)
 		} else if r.chance(50) {
 			train = c15EncodeTree(g.spread(chunks)) // the training journal over an include tree
 		}
